@@ -278,12 +278,20 @@ Definition failover_sem (g : nat) (ms : list ssem) : ssem := {|
 Inductive stack :=
 | Leaf (k : nat)                       (* writable member store *)
 | LeafRO (k : nat)                     (* member store offered through the read-only Store interface *)
-| Router (l : list stack)              (* StoreRouter *)
+| Router (l : list stack)              (* StoreRouter: OWNS its member list -- see the note below *)
 | Cache (s : stack) (l : stack)        (* Cache{s, l} *)
 | Repairable (l : stack)               (* RepairableCache *)
 | Failover (g : nat) (l : list stack)  (* FailoverGroup; [g] names its [active] cell *)
 | Dedup (s : stack)                    (* DedupQueue: transparent for one request at a time *)
 | WDedup (s : stack).                  (* WriteDedupQueue: idem *)
+
+(* Ownership.  A stack is a value: [Router l] / [Failover g l] denote the chain whose members are, for ever, the
+   list [l] given at construction; nothing in Gallina can alias and later overwrite [l].  This is therefore a
+   CONTRACT the Go constructors have to provide -- NewStoreRouter(list...) receives the caller's backing array
+   (variadic call) and must copy it (it does); "the chain behaves as the member list it was constructed with,
+   whatever the caller does to its slice afterwards, also for a request in flight" is checked on the
+   implementation by the construction-history cases of the harness (cmd/vh/c11hist.go, classes
+   router|failover/members-changed-after-construction).  NewFailoverGroup keeps the caller's slice: known finding. *)
 
 (* does the Go value implement WriteStore? *)
 Definition writable (s : stack) : bool :=
